@@ -55,7 +55,7 @@ RunV(e) ==
   \cup Clause(e.kind = "crash" /\ \E r \in DOMAIN e.results : e.results[r].again # e.results[r].alone, "C16_RetrievalDiffersAfterFault")
   \cup (IF e.kind # "sched" THEN {} ELSE
           UNION {IF e.results[r].res = e.results[r].alone THEN {}
-                 ELSE IF WindowOpenDuring(e.events, e.results[r].t) THEN {"C17_NotSequential_WindowOpenElsewhere"}
+                 ELSE IF WindowOpenDuring(e.events, e.results[r].t) /\ ~e.results[r].raised THEN {"C17_NotSequential_WindowOpenElsewhere"}   \* a wrong SIGNATURE (known finding)
                  ELSE {"C17_NotSequential"} : r \in DOMAIN e.results})
   (* the order inside every window is the code's: an attribute is saved before it is deleted *)
   \cup Clause(\E d \in DOMAIN e.events : e.events[d].ev = "Del" /\
